@@ -37,9 +37,295 @@ ASSUMPTIONS = [
 ]
 
 REQUIRED_GEN_KINDS = ["head", "hhea", "maxp", "hmtx", "cvt", "loca", "os2", "post", "name", "cmapsub", "cmap", "glyph",
-                      "cffint", "dict", "index", "indexo", "charset", "encoding", "fdselect", "ivs"]
+                      "glyphp", "cffint", "dict", "index", "indexo", "charset", "encoding", "fdselect", "ivs"]
 REQUIRED_TABLE_KINDS = ["head", "hhea", "maxp", "hmtx", "cvt", "loca", "os2", "post", "name", "nameo", "cmapsub", "glyf",
                         "glyph", "glyftbl", "glyfparsed", "cff", "cff2"]
+
+
+# ---- vacuity of the positional families -----------------------------------------------------------
+# For every structure with per-element flags, per-element lengths or a count-dependent header the
+# generated values must put the feature in every POSITION (first / middle / last / several / none), not
+# only have it present.  The classification below is measured on the values TLC printed; REQUIRED_FAMILIES
+# lists the classes without which the run is vacuous (ToolError).
+
+def _pos(i, n):
+    """Position class of element i (0-based) among n."""
+    if n == 1:
+        return "only"
+    return "first" if i == 0 else ("last" if i == n - 1 else "middle")
+
+
+def _set_class(idx, n):
+    """Class of a set of selected positions among n elements."""
+    idx = sorted(idx)
+    if not idx:
+        return "none"
+    if len(idx) == n:
+        return "all" if n > 1 else "only"
+    if len(idx) > 1:
+        return "several-with-last" if (n - 1) in idx else "several-without-last"
+    return _pos(idx[0], n)
+
+
+def _families(cases):
+    fam = {}
+
+    def hit(f, c):
+        d = fam.setdefault(f, {})
+        c = str(c)
+        d[c] = d.get(c, 0) + 1
+
+    for c in cases:
+        k, v = c["k"], c["v"]
+        refused = c["exp"].get("res") == "Err"
+        if k == "glyph" and v.get("t") == "c":
+            comps = v["comps"]
+            n = len(comps)
+            fl = [x["flags"] for x in comps]
+            hit("composite.components", min(n, 4))
+            cls = _set_class([i for i, f in enumerate(fl) if f & 256], n)
+            hit("composite.instructions_flag[%d]" % min(n, 4), cls + ("+bytes" if v["instr"] else "+empty" if cls != "none" else ""))
+            if n > 1 and any(f & 256 for f in fl) and not fl[-1] & 256:
+                hit("composite.instructions_flag_not_on_last", "bytes" if v["instr"] else "empty")
+            for i, f in enumerate(fl):
+                for bit, name in ((8, "scale"), (64, "xy-scale"), (128, "two-by-two")):
+                    if f & bit and not (f & (bit - 1) & (8 | 64 | 128)):
+                        hit("composite.transform." + name, _pos(i, n))
+                hit("composite.args." + ("words" if f & 1 else "bytes") + ("-xy" if f & 2 else "-points"), _pos(i, n))
+                for bit, name in ((4, "round"), (512, "use-my-metrics"), (1024, "overlap"), (2048, "scaled-offset"),
+                                  (4096, "unscaled-offset")):
+                    if f & bit:
+                        hit("composite.flag." + name, _pos(i, n))
+            sizes = {(f & 1, f & (8 | 64 | 128)) for f in fl}
+            if len(sizes) > 1:
+                hit("composite.components_of_different_size", min(n, 4))
+            more_ok = all(bool(f & 32) == (i < n - 1) for i, f in enumerate(fl))
+            hit("composite.more_components_consistent", more_ok)
+        elif k == "glyph" and v.get("t") == "s":
+            pts = v["pts"]
+            n = len(pts)
+            hit("simple.contours", min(len(v["ends"]), 4))
+            hit("simple.instructions", "none" if not v["instr"] else ("<=255" if len(v["instr"]) <= 255 else ">=256"))
+            if 1 < n <= 8:
+                hit("simple.on_curve", _set_class([i for i, q in enumerate(pts) if q[0] & 1], n))
+                for i, q in enumerate(pts):
+                    if q[1] in (32767, -32768) or q[2] in (32767, -32768):
+                        hit("simple.extreme_coordinate", _pos(i, n))
+        elif k == "glyphp":
+            pts = v["pts"]
+            n = len(pts)
+            hit("packed.instructions", bool(v["instr"]))
+            hit("packed.contours", min(len(v["ends"]), 3))
+            px = py = 0
+            i = 0
+            for i, q in enumerate(pts):
+                f, dx, dy = q[0], q[1] - px, q[2] - py
+                px, py = q[1], q[2]
+                if n <= 8:
+                    fx = ("short" + ("+" if f & 16 else "-")) if f & 2 else ("same" if f & 16 else "word")
+                    fy = ("short" + ("+" if f & 32 else "-")) if f & 4 else ("same" if f & 32 else "word")
+                    hit("packed.x." + fx, _pos(i, n))
+                    hit("packed.y." + fy, _pos(i, n))
+                    if f & 2 and abs(dx) in (0, 255):
+                        hit("packed.short_edge", "x%d" % abs(dx))
+                    if f & 4 and abs(dy) in (0, 255):
+                        hit("packed.short_edge", "y%d" % abs(dy))
+            # runs of REPEAT flags, as the encoder forms them
+            i = 0
+            while i < n:
+                if pts[i][0] & 8:
+                    r = 0
+                    while i + r + 1 < n and r < 255 and pts[i + r + 1][0] == pts[i][0]:
+                        r += 1
+                    hit("packed.repeat_count", r if r in (0, 1, 2, 254, 255) else "other")
+                    if n <= 8:
+                        hit("packed.repeat_run", "whole" if (i == 0 and i + r + 1 == n and n > 1) else
+                            "start" if i == 0 and n > 1 else "end" if i + r + 1 == n and n > 1 else
+                            "only" if n == 1 else "inside")
+                    i += r + 1
+                else:
+                    i += 1
+            hit("packed.points", n if n in (0, 1, 255, 256, 257, 258) else "other")
+        elif k == "cmapsub" and v.get("fmt") == 4:
+            n = len(v["starts"])
+            if not refused:
+                hit("cmap4.segments", n)
+                p2 = 1 << (n.bit_length() - 1)
+                hit("cmap4.segments_vs_power_of_two", "power" if n == p2 else "power+1" if n == p2 + 1 else
+                    "power-1" if n + 1 == 2 * p2 else "between")
+            if n <= 8:
+                ro = [i for i, x in enumerate(v["ros"]) if x]
+                # the final segment is the 0xFFFF one: positions are taken among the real segments
+                real = [i for i in ro if i < n - 1]
+                cls = _set_class(real, n - 1) if n > 1 else "none"
+                hit("cmap4.id_range_offset", cls + ("+final" if (n - 1) in ro else ""))
+        elif k == "cmap":
+            fm = [r["sub"]["fmt"] for r in v["recs"]]
+            hit("cmap.records", min(len(fm), 4))
+            if len(set(fm)) > 1:
+                hit("cmap.format_order", "-".join(map(str, fm)))
+        elif k == "name" and len(v["recs"]) <= 8:
+            recs, tags = v["recs"], v["tags"]
+            hit("name.format", 1 if tags else 0)
+            hit("name.tags", min(len(tags), 4))
+            for r in recs:
+                if r["s"]:
+                    hit("name.encoding", "%d/%d" % (r["p"], r["e"]))
+            if len(recs) > 1:
+                hit("name.empty_string", _set_class([i for i, r in enumerate(recs) if not r["s"]], len(recs)))
+                hit("name.long_string", _set_class([i for i, r in enumerate(recs) if len(r["s"]) > 255], len(recs)))
+            if len(tags) > 1:
+                hit("name.empty_tag", _set_class([i for i, t in enumerate(tags) if not t], len(tags)))
+            if tags and recs:
+                hit("name.tags_after_strings", bool(any(r["s"] for r in recs)))
+        elif k == "post" and v["version"] == 131072 and len(v["idx"]) <= 8:
+            idx, names = v["idx"], v["names"]
+            if len(idx) > 1:
+                hit("post.custom_name_index", _set_class([i for i, x in enumerate(idx) if x >= 258], len(idx)))
+                hit("post.index_257", _set_class([i for i, x in enumerate(idx) if x == 257], len(idx)))
+                cust = [x for x in idx if x >= 258]
+                if len(cust) > 1:
+                    hit("post.custom_order", "ascending" if cust == sorted(set(cust)) else
+                        "shared" if len(set(cust)) < len(cust) else "other")
+                if len(names) > len(set(cust)):
+                    hit("post.unused_names_stored", len(names) - len(set(cust)))
+            if len(names) > 1:
+                hit("post.empty_name", _set_class([i for i, s in enumerate(names) if not s], len(names)))
+                hit("post.name_255", _set_class([i for i, s in enumerate(names) if len(s) == 255], len(names)))
+                hit("post.name_256_refused", _set_class([i for i, s in enumerate(names) if len(s) == 256], len(names)))
+        elif k == "os2" and not refused:
+            hit("os2.length", len(c["exp"]["bytes"]))
+            hit("os2.version_written", c["exp"]["back"]["version"])
+        elif k == "loca" and len(v["offs"]) > 1:
+            offs = v["offs"]
+            f = "short" if v["fmt"] == 0 else "long"
+            hit("loca.%s.odd_offset" % f, _set_class([i for i, x in enumerate(offs) if x & 1], len(offs)) +
+                ("->refused" if refused else "->stored"))
+            hit("loca.%s.offset>131070" % f, _set_class([i for i, x in enumerate(offs) if x > 131070], len(offs)) +
+                ("->refused" if refused else "->stored"))
+            hit("loca.%s.offset=131070" % f, _set_class([i for i, x in enumerate(offs) if x == 131070], len(offs)))
+        elif k == "hmtx":
+            hit("hmtx.metrics/bearings", "%d/%d" % (min(len(v["hm"]), 4), min(len(v["lsb"]), 3)))
+        elif k == "dict":
+            es = v["entries"]
+            back = c["exp"]["back"]
+            kept = [(e["op"], json.dumps(e["args"])) for e in back]
+            dropped = [i for i, e in enumerate(es) if (e["op"], json.dumps(e["args"])) not in kept]
+            if len(es) > 1 and len(es) <= 4:
+                hit("dict.default_entry[%s]" % v["kind"], _set_class(dropped, len(es)))
+            for i, e in enumerate(es):
+                if len(e["args"]) == 48 and len(es) > 1:
+                    hit("dict.48_operands", _pos(i, len(es)))
+                rl = [j for j, a in enumerate(e["args"]) if a["t"] == "r"]
+                if rl and len(e["args"]) > 1:
+                    hit("dict.real_operand", _set_class(rl, len(e["args"])))
+        elif k in ("index", "indexo"):
+            lens = [len(o) for o in v["objs"]] if k == "index" else v["lens"]
+            if len(lens) > 1:
+                hit(k + ".empty_object", _set_class([i for i, x in enumerate(lens) if x == 0], len(lens)))
+            if lens:
+                hit(k + ".last_offset", (1 + sum(lens)) if (1 + sum(lens)) in (255, 256, 257, 65535, 65536) else "other")
+        elif k == "charset" and v["fmt"] in (1, 2) and 1 < len(v["ranges"]) <= 8:
+            rs = v["ranges"]
+            for edge in ((0, 255) if v["fmt"] == 1 else (0, 255, 256, 65535)):
+                hit("charset%d.nLeft=%d" % (v["fmt"], edge), _set_class([i for i, r in enumerate(rs) if r[1] == edge], len(rs)))
+        elif k == "encoding" and v["fmt"] == 1 and 1 < len(v["ranges"]) <= 8:
+            rs = v["ranges"]
+            hit("encoding1.nLeft=255", _set_class([i for i, r in enumerate(rs) if r[1] == 255], len(rs)))
+        elif k == "fdselect" and v["fmt"] == 3 and 1 < len(v["ranges"]) <= 8:
+            rs = v["ranges"]
+            if rs[1][0] == rs[0][0] + 1:
+                hit("fdselect3.change_point", "after-first-glyph")
+            if rs[-1][0] == v["sentinel"] - 1:
+                hit("fdselect3.change_point", "before-last-glyph")
+            hit("fdselect3.fd=255", _set_class([i for i, r in enumerate(rs) if r[1] == 255], len(rs)))
+        elif k == "fdselect" and v["fmt"] == 0 and len(v["fds"]) > 1:
+            fds = v["fds"]
+            ch = [i for i in range(1, len(fds)) if fds[i] != fds[i - 1]]
+            hit("fdselect0.change_point", _set_class([i - 1 for i in ch], len(fds) - 1))
+        elif k == "ivs":
+            data = v["data"]
+            for d in data:
+                if d["ris"]:
+                    hit("ivs.word_delta_count", "%s:%d/%d" % ("long" if d["wdc"] >= 32768 else "short", d["wdc"] % 32768, len(d["ris"])))
+            if len(data) > 1:
+                hit("ivs.long_subtable", _set_class([i for i, d in enumerate(data) if d["wdc"] >= 32768], len(data)))
+                hit("ivs.empty_subtable", _set_class([i for i, d in enumerate(data) if d["items"] == 0], len(data)))
+    return fam
+
+
+REQUIRED_FAMILIES = {
+    "composite.components": ["1", "2", "3"],
+    "composite.instructions_flag[2]": ["none", "first+bytes", "first+empty", "last+bytes", "last+empty", "all+bytes"],
+    "composite.instructions_flag[3]": ["none", "first+bytes", "middle+bytes", "last+bytes", "several-with-last+bytes",
+                                       "several-without-last+bytes", "all+bytes", "first+empty", "middle+empty"],
+    "composite.instructions_flag_not_on_last": ["bytes", "empty"],
+    "composite.transform.scale": ["first", "middle", "last", "only"],
+    "composite.transform.xy-scale": ["first", "middle", "last", "only"],
+    "composite.transform.two-by-two": ["first", "middle", "last", "only"],
+    "composite.args.words-xy": ["first", "middle", "last"],
+    "composite.args.words-points": ["first", "middle", "last"],
+    "composite.args.bytes-xy": ["first", "middle", "last"],
+    "composite.args.bytes-points": ["first", "middle", "last"],
+    "composite.flag.use-my-metrics": ["first", "middle", "last"],
+    "composite.flag.overlap": ["first", "middle", "last"],
+    "composite.components_of_different_size": ["2", "3"],
+    "composite.more_components_consistent": ["True"],
+    "simple.on_curve": ["first", "middle", "last", "all", "several-with-last", "several-without-last"],
+    "simple.extreme_coordinate": ["first", "middle", "last"],
+    "simple.instructions": ["none", "<=255", ">=256"],
+    "packed.x.short+": ["first", "middle", "last"], "packed.x.short-": ["first", "middle", "last"],
+    "packed.x.same": ["first", "middle", "last"], "packed.x.word": ["first", "middle", "last"],
+    "packed.y.short+": ["first", "middle", "last"], "packed.y.short-": ["first", "middle", "last"],
+    "packed.y.same": ["first", "middle", "last"], "packed.y.word": ["first", "middle", "last"],
+    "packed.short_edge": ["x0", "x255", "y0", "y255"],
+    "packed.repeat_count": ["0", "1", "2", "254", "255"],
+    "packed.repeat_run": ["whole", "start", "end", "inside", "only"],
+    "packed.points": ["0", "1", "255", "256", "257", "258"],
+    "packed.instructions": ["True", "False"],
+    "cmap4.segments": [str(n) for n in list(range(1, 18)) + [31, 32, 33, 255, 256, 257, 1023, 1024, 1025]],
+    "cmap4.segments_vs_power_of_two": ["power", "power+1", "power-1", "between"],
+    "cmap4.id_range_offset": ["none", "first", "middle", "last", "all", "several-with-last", "several-without-last", "none+final"],
+    "cmap.format_order": ["0-4-6", "6-0-4", "4-6-0"],
+    "name.format": ["0", "1"],
+    "name.encoding": ["0/3", "0/4", "1/0", "3/0", "3/1", "3/10"],
+    "name.empty_string": ["none", "first", "middle", "last", "all"],
+    "name.long_string": ["first", "middle", "last"],
+    "name.empty_tag": ["none", "first", "last"],
+    "name.tags_after_strings": ["True", "False"],
+    "post.custom_name_index": ["none", "first", "middle", "last", "all", "several-with-last", "several-without-last"],
+    "post.index_257": ["first", "middle", "last"],
+    "post.custom_order": ["ascending", "shared", "other"],
+    "post.unused_names_stored": ["2"],
+    "post.empty_name": ["first", "middle", "last"],
+    "post.name_255": ["first", "middle", "last"],
+    "post.name_256_refused": ["first", "middle", "last"],
+    "os2.length": ["68", "78", "86", "96", "100"],
+    "os2.version_written": ["0", "1", "4", "5"],
+    "loca.short.odd_offset": ["first->refused", "middle->refused", "last->refused", "none->stored"],
+    "loca.long.odd_offset": ["first->stored", "middle->stored", "last->stored"],
+    "loca.short.offset>131070": ["first->refused", "middle->refused", "last->refused"],
+    "loca.short.offset=131070": ["first", "middle", "last"],
+    "hmtx.metrics/bearings": ["%d/%d" % (a, b) for a in (1, 2, 3) for b in (0, 1, 2)],
+    "dict.default_entry[top]": ["first", "middle", "last"],
+    "dict.default_entry[priv]": ["first", "middle", "last"],
+    "dict.48_operands": ["first", "last"],
+    "dict.real_operand": ["first", "last"],
+    "index.empty_object": ["none", "first", "middle", "last", "all"],
+    "indexo.empty_object": ["none", "first", "middle", "last", "all"],
+    "index.last_offset": ["255", "256", "257"],
+    "indexo.last_offset": ["255", "256", "257", "65535", "65536"],
+    "charset1.nLeft=0": ["first", "middle", "last"], "charset1.nLeft=255": ["first", "middle", "last"],
+    "charset2.nLeft=255": ["first", "middle", "last"], "charset2.nLeft=256": ["first", "middle", "last"],
+    "charset2.nLeft=65535": ["first", "middle", "last"],
+    "encoding1.nLeft=255": ["first", "middle", "last"],
+    "fdselect3.change_point": ["after-first-glyph", "before-last-glyph"],
+    "fdselect3.fd=255": ["first", "middle", "last"],
+    "fdselect0.change_point": ["first", "middle", "last"],
+    "ivs.word_delta_count": ["%s:%d/3" % (w, n) for w in ("short", "long") for n in range(4)],
+    "ivs.long_subtable": ["first", "middle", "last", "none"],
+    "ivs.empty_subtable": ["first", "middle", "last"],
+}
 
 
 def _cls(res):
@@ -125,9 +411,39 @@ def _plant(events):
                     and e["o"]["p2"]["dicts"] and e["o"]["p2"]["dicts"][0]["es"]), None)
     wop = next((e for e in events if e["ev"] == "WOp" and e["o"].get("res") == e["a"]["exp"]["res"]
                 and len(e["o"].get("buf", [])) > len(e["a"]["free"])), None)
-    if not all([gen_exact, gen_free, gen_back, gen_err, tab_small, tab_big, tab_cff, wop]):
+    def instr_not_on_last(e):
+        if e["ev"] != "Gen" or e["a"]["k"] != "glyph":
+            return False
+        b = e["a"]["exp"].get("back")
+        if not isinstance(b, dict) or b.get("t") != "c":
+            return False
+        fl = [c["flags"] for c in b["comps"]]
+        return len(fl) > 1 and any(f & 256 for f in fl) and not fl[-1] & 256 and len(b["instr"]) > 0
+
+    def as_prescribed(e):
+        """The event with the observation the specification prescribes (so that these two plants do not depend
+        on allsorts conforming exactly where they probe)."""
+        if e is None:
+            return None
+        e = json.loads(json.dumps(e))
+        x = e["a"]["exp"]
+        e["o"] = {"res": "Ok", "bytes": x["bytes"], "back": x["back"], "rem": 0, "again": "same"}
+        if "back1" in x:
+            e["o"].update({"back1": x["back1"], "rem1": 0})
+        return e
+    gen_comp = as_prescribed(next((e for e in events if instr_not_on_last(e)), None))
+    gen_packed = as_prescribed(next((e for e in events if e["ev"] == "Gen" and e["a"]["k"] == "glyphp"
+                                     and len(e["a"]["exp"]["back1"]["pts"]) == 3), None))
+    if not all([gen_exact, gen_free, gen_back, gen_err, tab_small, tab_big, tab_cff, wop, gen_comp, gen_packed]):
         raise vlib.ToolError("binding self-check: no conforming event to corrupt (%s)" % [
-            bool(x) for x in (gen_exact, gen_free, gen_back, gen_err, tab_small, tab_big, tab_cff, wop)])
+            bool(x) for x in (gen_exact, gen_free, gen_back, gen_err, tab_small, tab_big, tab_cff, wop, gen_comp, gen_packed)])
+    e = add(gen_comp, "gen-composite-instructions-dropped")   # the block is gone, the flag words still announce it
+    n_i = len(e["a"]["exp"]["back"]["instr"])
+    e["o"]["bytes"] = e["o"]["bytes"][:-(n_i + 2)]
+    e = add(gen_packed, "gen-packed-first-read")   # the packed bytes were read as a different outline
+    e["o"]["back1"]["pts"][1][1] += 1
+    e = add(gen_packed, "gen-packed-flag-lost")    # ON_CURVE of the last point lost on the way through the writer
+    e["o"]["back"]["pts"][2][0] ^= 1
     e = add(gen_exact, "gen-bytes")
     e["o"]["bytes"][-1] = (e["o"]["bytes"][-1] + 1) % 256
     e = add(gen_free, "gen-int")                    # 2-byte integer with its second byte off by one
@@ -170,6 +486,12 @@ def run(ctx):
     gtrace = ctx.path("gen_trace.ndjson")
     crep = vlib.run_harness(binp, ["codec-replay", ccases, gtrace])
     ctx.note("codec-replay: %d events, outcomes %s" % (crep["events"], json.dumps(crep["outcomes"], sort_keys=True)))
+    families = _families(vlib.read_ndjson(ccases))
+    thin = ["%s:%s" % (f, c) for f, cs in sorted(REQUIRED_FAMILIES.items()) for c in cs if not families.get(f, {}).get(c)]
+    if thin:
+        raise vlib.ToolError("vacuous: positional families without a generated value: %s" % thin)
+    ctx.note("positional families: %d families, %d position classes, all %d required classes hit" % (
+        len(families), sum(len(d) for d in families.values()), sum(len(c) for c in REQUIRED_FAMILIES.values())))
 
     # ---- impl -> spec: repository tables
     ttrace = ctx.path("table_trace.ndjson")
@@ -268,6 +590,7 @@ def run(ctx):
         "codec_refusals_per_kind": gen_refused,
         "codec_canonical_encoding_chosen": gen_canonical,
         "codec_outcomes": crep["outcomes"],
+        "codec_positional_families": families,
         "fonts": rrep.get("fonts", 0),
         "table_events_per_kind": tab_kinds,
         "table_events_judged_value_by_value": tab_small,
